@@ -596,8 +596,11 @@ void ExpressionBuilder::expr_dot(const char* id)
             expr = expression_t::create_dot(expr, *i, position, type_t::create_primitive(Constants::BOOL));
         } else {
             type = type.get_sub(*i).rename(process->templ->uid.get_name() + "::", name.get_name() + "::");
-            for (const auto& [s, e] : process->mapping)
-                type = type.subst(s, e);
+            // The mapping is ordered by symbol address, not by instantiation depth, and an argument may mention
+            // parameters of an enclosing instantiation: one round per entry substitutes every level.
+            for (size_t round = 0; round < process->mapping.size(); ++round)
+                for (const auto& [s, e] : process->mapping)
+                    type = type.subst(s, e);
             expr = expression_t::create_dot(expr, *i, position, type);
         }
     } else if (type.is(PROCESS_VAR)) {
